@@ -83,22 +83,24 @@ Theorem C11_width_overflow_is_error :
 Proof. exact integer_overflow_is_error. Qed.
 Print Assumptions C11_width_overflow_is_error.
 
-(* An invalid time zone argument is an error chunk, outside the open finding
-   class (several pieces, the first being utc/local). *)
+(* An invalid time zone argument - the WHOLE literal argument is read (fix d5a5dce) - is
+   an error chunk. *)
 Theorem C11_invalid_zone_is_error :
   forall ok fmt z more prm,
-    zone_valid z = false -> tz_arg_class z = false ->
+    zone_valid z = false ->
     exists m, compile_date ok (fmt :: z :: more) prm = CError m.
 Proof. exact invalid_zone_is_error. Qed.
 Print Assumptions C11_invalid_zone_is_error.
 
-(* Open finding F-C11-tz-first-piece: `{d(%Y)(utc{{x)}` is accepted as UTC. *)
-Theorem C11_tz_first_piece_refuted :
-  exists s ps,
-    parse a_alpha a_alnum s = Ok ps /\ existsb (tz_class w_ok) ps = true /\
-    construct a_alpha a_alnum w_ok s = Ok [CLeaf (KTime (LIT "%Y") Utc) default_params].
-Proof. exact tz_first_piece_refuted. Qed.
-Print Assumptions C11_tz_first_piece_refuted.
+(* Fixed finding F-C11-tz-first-piece: `{d(%Y)(utc{{x)}` reports the zone `utc{x`. *)
+Theorem C11_tz_whole_argument :
+  construct a_alpha a_alnum w_ok (LIT "{d(%Y)(utc{{x)}")
+    = Ok [CError (LIT "invalid timezone `utc{x`")]
+  /\ construct a_alpha a_alnum w_ok (LIT "{d(%Y)(utc)}|{d(%Y)(local)}")
+     = Ok [CLeaf (KTime (LIT "%Y") Utc) default_params; CText (LIT "|");
+           CLeaf (KTime (LIT "%Y") Local) default_params].
+Proof. exact tz_whole_argument. Qed.
+Print Assumptions C11_tz_whole_argument.
 
 (* ---------- non-vacuity / regression instances ---------- *)
 
